@@ -50,3 +50,15 @@ where
         klukai_types::spawn::spawn_counted(fut);
     }
 }
+
+/// Visibility-only re-exports for the external verification harness (no behaviour).
+#[cfg(beanpuppy_corrosion_verif)]
+pub mod verif_hooks {
+    pub use super::bi::spawn_bipayload_handler;
+    pub use super::handlers::{
+        handle_changes, handle_notifications, handle_sync, spawn_handle_db_maintenance,
+    };
+    pub use super::util::{
+        apply_fully_buffered_changes_loop, clear_buffered_meta_loop, sync_loop,
+    };
+}
